@@ -427,7 +427,24 @@ def extra_phase(tier, seed, stats):
         if diff:
             o.fail("depends-on-hash-seed", f"case {json.dumps(c)[:600]}: digests differ for PYTHONHASHSEED in {diff} (vs {seeds[0]})")
         stats.record("extra:hash-seeds", c, o)
-    return {"hash_seeds": seeds, "battery_cases": len(cases), "battery_exceptions": sum(1 for r in ref if str(r).startswith("EXC:"))}
+    # one large frame (250 000 rows): two fresh builds are identical and leave numpy's global random state alone
+    # (data-derived knots / statistics must not come from a random subsample)
+    import pandas as pd
+    from ..libio import model_matrix as _mm
+    from ..core import Outcome as _Outcome
+
+    big = pd.DataFrame({"x": np.linspace(0.0, 1.0, 250_000) ** 2 * 10.0, "g": np.tile(["a", "b", "c", "d", "e"], 50_000)})
+    o_big = _Outcome()
+    o_big.nontrivial = True
+    rng_before = np.random.get_state()[1].tobytes()
+    d1 = digest(_mm("bs(x, df=5) + scale(x) + g", big, output="numpy"))
+    d2 = digest(_mm("bs(x, df=5) + scale(x) + g", big.copy(), output="numpy"))
+    if d1 != d2:
+        o_big.fail("large-input-not-deterministic", f"two fresh builds of 'bs(x, df=5) + scale(x) + g' on 250000 rows differ: {d1['values'][:12]} vs {d2['values'][:12]}")
+    if np.random.get_state()[1].tobytes() != rng_before:
+        o_big.fail("global-state-changed", "building a model matrix on 250000 rows consumed numpy's global random state", op="large", what="numpy.random")
+    stats.record("extra:large-input", {"rows": 250000, "formula": "bs(x, df=5) + scale(x) + g"}, o_big)
+    return {"hash_seeds": seeds, "battery_cases": len(cases), "battery_exceptions": sum(1 for r in ref if str(r).startswith("EXC:")), "large_input_rows": 250000}
 
 
 N = {"quick": 350, "thorough": 3000}
